@@ -590,10 +590,18 @@ def judgeCmd (s : JState) (cmd : String) (impl : List String) : JState × List S
     else (s, impl)
   | _ => (s, impl)
 
+/-- "equal value" includes being FOUND: every entry of every mapping the harness prints (restored values, the
+    variables after restore_object) is looked up through its key (`m[key]`); an entry that keys() / values() / a
+    re-save list but no lookup reaches is reported by the harness as a line `lookup-miss <key> ..` -/
+def lookupLines (impl : List String) : List String :=
+  (impl.filter (fun l => l.startsWith "lookup-miss")).map
+    (fun l => s!"mapping-entry-not-found-by-its-key {(l.drop 12).toString}")
+
 def judge (cmds impl : List String) : List String :=
   let mem := memLines impl
-  let impl' := impl.filter (fun l => !(l.startsWith "sanitizer" ∨ l.startsWith "crash" ∨ l.startsWith "tree "))
+  let impl' := impl.filter (fun l => !(l.startsWith "sanitizer" ∨ l.startsWith "crash" ∨ l.startsWith "tree " ∨
+    l.startsWith "lookup-miss"))
   let (s, _) := cmds.foldl (fun (acc : JState × List String) c => judgeCmd acc.1 c acc.2) ({}, impl')
-  mem ++ s.bad.reverse
+  mem ++ lookupLines impl ++ s.bad.reverse
 
 end NV.C16
